@@ -1,0 +1,28 @@
+package serialization
+
+import (
+	"bytes"
+	"io"
+	"math"
+)
+
+// ReadBytes reads exactly n bytes from r. n usually comes from the input
+// itself, so the buffer grows with the data that is actually there instead of
+// being allocated up front: a corrupt length yields an error, not a panic or
+// a huge allocation.
+func ReadBytes(r io.Reader, n uint64) ([]byte, error) {
+	if n == 0 {
+		return []byte{}, nil
+	}
+	if n > math.MaxInt64 {
+		return nil, io.ErrUnexpectedEOF
+	}
+	b := bytes.Buffer{}
+	if _, err := io.CopyN(&b, r, int64(n)); err != nil {
+		if err == io.EOF {
+			err = io.ErrUnexpectedEOF
+		}
+		return nil, err
+	}
+	return b.Bytes(), nil
+}
